@@ -15,6 +15,9 @@ static mut ENCODED: [u8; 8] = [0; 8];
 #[kani::proof]
 #[kani::unwind(20)]
 #[kani::stub(alloc::fmt::format, fmt_format_stub)]
+#[kani::stub(std::str::from_utf8, crate::verif_env::from_utf8_accept)]
+#[kani::stub(::core::slice::memchr::memchr, crate::verif_env::memchr_naive)]
+#[kani::stub(::core::slice::memchr::memrchr, crate::verif_env::memrchr_naive)]
 #[allow(static_mut_refs)]
 fn c15_make_auth_splits_at_first_colon() {
     let c: [u8; 6] = kani::any();
